@@ -44,12 +44,17 @@ class RecorderRoles(object):
             and _self_attr(n.func.value)])
         # parameters field: the other self field assigned in start_recording before the try
         pre = []
+        typed = []
         for s in self.start.node.body:
             if isinstance(s, ast.Try):
                 break
             if isinstance(s, ast.Assign) and len(s.targets) == 1 and _self_attr(s.targets[0]) and \
                     _self_attr(s.targets[0]) != self.active:
                 pre.append(_self_attr(s.targets[0]))
+                if any(isinstance(x, ast.Name) and x.id == 'RecordingParameters' for x in ast.walk(s.value)):
+                    typed.append(_self_attr(s.targets[0]))
+        if len(set(pre)) > 1 and len(set(typed)) == 1:
+            pre = typed        # further per-run fields may be set there: the parameters field is the one built from RecordingParameters
         self.params = self._one('recording-parameters-field', pre)
         # playback field: assigned in play from (a local holding) the result of get_recording
         got = set()
